@@ -85,6 +85,9 @@ def programs(tier: str):
                         for c in range(len(OWN_CLASSES)):
                             yield {"gaps": list(gaps), "limit": limit, "dur": dur, "period": "float", "fail": fail, "errclass": c}
     for limit in (1, 2):
+        for gaps in ([0.0, 0.0], [0.0, 0.5, 0.0], [0.5, 0.5], [0.0, 0.0, 0.0]):
+            yield {"gaps": gaps, "limit": limit, "dur": 0.5, "period": "float", "fail": None, "partial": True}
+    for limit in (1, 2):
         for gaps in ([0.0, 0.0], [0.0, 0.5, 0.0], [0.5, 0.5]):
             yield {"gaps": gaps, "limit": limit, "dur": 0.5, "period": "float", "fail": None, "attrs": True}
 
@@ -127,6 +130,17 @@ def execute(program, ch: Chooser) -> Result:  # noqa: C901, PLR0912, PLR0915
                 raise errs[i]
             return ("r", i)
 
+        if program.get("partial"):
+            # the wrapped callable is a functools.partial of a coroutine function (no __name__)
+            import functools
+
+            async def fn_impl(_bound, i):
+                starts.append((i, now() - START))
+                if dur > 0:
+                    await asyncio.sleep(dur)
+                return ("r", i)
+
+            fn = functools.partial(fn_impl, None)
         if program.get("attrs"):
             # the wrapped function carries attributes of its own that happen to be named like the
             # wrapper's internals: they must not reconfigure the throttle
